@@ -155,11 +155,18 @@ type World struct {
 	// FaultAt > 0 makes the FaultAt-th API call (counted from the last ResetFault) fail without effect.
 	FaultAt    int
 	faultCount int
+	// CrashAt > 0: the process dies right before (CrashAfter=false) or right after (true) the CrashAt-th API call.
+	CrashAt      int
+	CrashAfter   bool
+	Crashed      bool
+	crashPending bool
 	// DeletedFIPs logs store deletes/re-keys for culprit attribution: "step op ip oldkey->newkey by thread"
 	StoreLog []string
 	// AssignOwner / CloudSeen are scratch state of the C10 oracle (owner key of an IP when it was assigned).
 	AssignOwner map[string]string
 	CloudSeen   int
+	// Aux is scratch space for harnesses (e.g. the observation log of a history).
+	Aux []interface{}
 	// Writers is the set of threads that performed store writes, bindings or provider calls.
 	Writers map[string]bool
 
@@ -239,6 +246,7 @@ func (w *World) Start() error {
 // Restart models a process restart: new plugin over the same API truth; undelivered pod events are lost.
 func (w *World) Restart() error {
 	w.Restarts++
+	w.Crashed, w.crashPending, w.CrashAt, w.FaultAt = false, false, 0, 0
 	var keep []Event
 	w.Pending = keep
 	return w.Start()
@@ -663,10 +671,33 @@ func (w *World) Alive(key string) bool {
 // ---------------------------------------------------------------------------------------------
 // API clients
 
+// afterCall runs when an API call returns: crash-after-the-call injection.
+func (w *World) afterCall() {
+	if w.crashPending {
+		w.crashPending = false
+		w.Crashed = true
+		panic(coop.CrashSentinel{Where: "after call"})
+	}
+}
+
 func (w *World) apiCall(verb, res, name string) error {
+	if w.Crashed {
+		// the process is dead: nothing (e.g. deferred clean-up during unwinding) reaches the API server any more
+		panic(coop.CrashSentinel{Where: "dead"})
+	}
 	coop.Point("api", verb+" "+res+" "+name)
 	w.APICalls++
 	w.faultCount++
+	if w.CrashAt > 0 && w.faultCount == w.CrashAt {
+		if w.CrashAfter {
+			w.APILog = append(w.APILog, "CRASH-after "+verb+" "+res+" "+name)
+			w.crashPending = true
+		} else {
+			w.APILog = append(w.APILog, "CRASH-before "+verb+" "+res+" "+name)
+			w.Crashed = true
+			panic(coop.CrashSentinel{Where: "before " + verb + " " + res + " " + name})
+		}
+	}
 	if w.FaultAt > 0 && w.faultCount == w.FaultAt {
 		w.APILog = append(w.APILog, "FAULT "+verb+" "+res+" "+name)
 		return apierrors.NewInternalError(fmt.Errorf("injected fault"))
@@ -749,6 +780,7 @@ func (p *podClient) Get(ctx gocontext.Context, name string, _ metav1.GetOptions)
 	if err := p.w.apiCall("get", "pods", p.ns+"/"+name); err != nil {
 		return nil, err
 	}
+	defer p.w.afterCall()
 	pod := p.w.Pods[p.ns+"/"+name]
 	if pod == nil {
 		return nil, apierrors.NewNotFound(podGR, name)
@@ -762,6 +794,7 @@ func (p *podClient) Bind(ctx gocontext.Context, b *corev1.Binding, _ metav1.Crea
 		w.BindFail = append(w.BindFail, b.Name+": "+err.Error())
 		return err
 	}
+	defer w.afterCall()
 	pod := w.Pods[p.ns+"/"+b.Name]
 	if pod == nil {
 		return apierrors.NewNotFound(podGR, b.Name)
@@ -807,6 +840,7 @@ func (n *nodeClient) Get(ctx gocontext.Context, name string, _ metav1.GetOptions
 	if err := n.w.apiCall("get", "nodes", name); err != nil {
 		return nil, err
 	}
+	defer n.w.afterCall()
 	for _, s := range n.w.Cfg.Nodes {
 		if s.Name == name {
 			return n.w.nodeObj(s), nil
@@ -825,6 +859,7 @@ func (c *cmClient) Get(ctx gocontext.Context, name string, _ metav1.GetOptions) 
 	if err := c.w.apiCall("get", "configmaps", name); err != nil {
 		return nil, err
 	}
+	defer c.w.afterCall()
 	return &corev1.ConfigMap{ObjectMeta: metav1.ObjectMeta{Name: name, Namespace: c.ns},
 		Data: map[string]string{"floatingips": c.w.ConfigMap}}, nil
 }
@@ -861,6 +896,7 @@ func (c *fipClient) Create(ctx gocontext.Context, f *v1alpha1.FloatingIP, _ meta
 	if err := c.w.apiCall("create", "fip", f.Name+" key="+f.Spec.Key); err != nil {
 		return nil, err
 	}
+	defer c.w.afterCall()
 	if _, ok := c.w.FIPs[f.Name]; ok {
 		return nil, apierrors.NewAlreadyExists(fipGR, f.Name)
 	}
@@ -874,6 +910,7 @@ func (c *fipClient) Update(ctx gocontext.Context, f *v1alpha1.FloatingIP, _ meta
 	if err := c.w.apiCall("update", "fip", f.Name+" key="+f.Spec.Key); err != nil {
 		return nil, err
 	}
+	defer c.w.afterCall()
 	old, ok := c.w.FIPs[f.Name]
 	if !ok {
 		return nil, apierrors.NewNotFound(fipGR, f.Name)
@@ -888,6 +925,7 @@ func (c *fipClient) Delete(ctx gocontext.Context, name string, _ metav1.DeleteOp
 	if err := c.w.apiCall("delete", "fip", name); err != nil {
 		return err
 	}
+	defer c.w.afterCall()
 	old, ok := c.w.FIPs[name]
 	if !ok {
 		return apierrors.NewNotFound(fipGR, name)
@@ -906,6 +944,7 @@ func (c *fipClient) Get(ctx gocontext.Context, name string, _ metav1.GetOptions)
 	if err := c.w.apiCall("get", "fip", name); err != nil {
 		return nil, err
 	}
+	defer c.w.afterCall()
 	f, ok := c.w.FIPs[name]
 	if !ok {
 		return nil, apierrors.NewNotFound(fipGR, name)
@@ -917,6 +956,7 @@ func (c *fipClient) List(ctx gocontext.Context, _ metav1.ListOptions) (*v1alpha1
 	if err := c.w.apiCall("list", "fip", ""); err != nil {
 		return nil, err
 	}
+	defer c.w.afterCall()
 	l := &v1alpha1.FloatingIPList{}
 	names := make([]string, 0, len(c.w.FIPs))
 	for n := range c.w.FIPs {
@@ -940,6 +980,7 @@ func (c *poolClient) Get(ctx gocontext.Context, name string, _ metav1.GetOptions
 	if err := c.w.apiCall("get", "pool", name); err != nil {
 		return nil, err
 	}
+	defer c.w.afterCall()
 	p, ok := c.w.PoolObjs[name]
 	if !ok {
 		return nil, apierrors.NewNotFound(poolGR, name)
@@ -951,6 +992,7 @@ func (c *poolClient) Create(ctx gocontext.Context, p *v1alpha1.Pool, _ metav1.Cr
 	if err := c.w.apiCall("create", "pool", fmt.Sprintf("%s size=%d", p.Name, p.Size)); err != nil {
 		return nil, err
 	}
+	defer c.w.afterCall()
 	if _, ok := c.w.PoolObjs[p.Name]; ok {
 		return nil, apierrors.NewAlreadyExists(poolGR, p.Name)
 	}
@@ -967,6 +1009,7 @@ func (c *poolClient) Update(ctx gocontext.Context, p *v1alpha1.Pool, _ metav1.Up
 	if err := c.w.apiCall("update", "pool", fmt.Sprintf("%s size=%d", p.Name, p.Size)); err != nil {
 		return nil, err
 	}
+	defer c.w.afterCall()
 	if _, ok := c.w.PoolObjs[p.Name]; !ok {
 		return nil, apierrors.NewNotFound(poolGR, p.Name)
 	}
@@ -983,6 +1026,7 @@ func (c *poolClient) Delete(ctx gocontext.Context, name string, _ metav1.DeleteO
 	if err := c.w.apiCall("delete", "pool", name); err != nil {
 		return err
 	}
+	defer c.w.afterCall()
 	p, ok := c.w.PoolObjs[name]
 	if !ok {
 		return apierrors.NewNotFound(poolGR, name)
